@@ -23,12 +23,16 @@ CONFIG = {'gen': ['SmbCommands'],
          'the plain error outcome Allocation audit: after the parallel pass every campaign case is re-run sequentially and '
          'runtime.MemStats.TotalAlloc must stay within 256 KiB + 1 KiB per input byte (measured per chunk of 64 cases, bisected to the '
          'single case); decimal fields are also driven to 2^24, 2^28, 2^30, 2^32, 2^63-2.',
- 'assumptions': ['allocation: every slice of the models is a sub-slice or copy of the input (bounds proved for key material, '
-                 'DN-with-binary, PKCS#7, the C06 byte counts) except decoded LLMNR/NBNS names, bounded by llmnr_name_alloc_bound; real '
-                 'memory use is additionally capped by GOMEMLIMIT in the harness, not measured per case',
+ 'assumptions': ['allocation: the theorems *_alloc_bound are about cost functions written beside the hand models (…AllocOf, allocCmd over '
+                 'the command IR) that follow the Go make / append / copy statements in their order; they are hand transliterations like '
+                 'the models and are not tied to the real code by an M op of their own (the allocation audit measures the real code; the '
+                 "SMB predicate AllocGuarded is decided on the regenerated programs); the Go runtime's per-object overhead, append growth "
+                 'factors (at most 2), error values, fmt temporaries and stdlib scratch space are measured by the audit only (256 KiB + 1 '
+                 'KiB per input byte per case, GOMEMLIMIT behind it)',
                  'stdlib internals (encoding/asn1, base64, hex, strconv, regexp, utf16, crypto/aes) do not panic',
                  'the repairs fixes/C07-*.diff (and the earlier fixes/C03-data-unmarshal-guard, C06-*, C08-*, C12-gppp-odd-length, '
-                 'C13-guid-strict-dbp, C20-ipv4-parse) are applied to the tree under test',
+                 'C13-guid-strict-dbp, C20-ipv4-parse) are applied to the tree under test; fixes/C07-dn-domain-quadratic.diff is proposed only '
+                 '(the cost function C16.dnAllocOf follows the unrepaired `domain += …` loop)',
                  'integer arguments of exported decoders other than the LLMNR offsets are not inputs of the property; negative LLMNR '
                  "offsets are covered by the campaign only (the model's offsets are naturals)"],
  'trusted': ['tools/extract/smb_commands.go (statement-by-statement translation of the 115 Marshal/Unmarshal bodies into the command IR; '
@@ -43,7 +47,12 @@ CONFIG = {'gen': ['SmbCommands'],
               'Known interpreted at run-time states); per-entry-point totality theorems of the hand models of all other decoders '
               '(induction over the input / over the entry and pointer walks; termination = totality of the Lean definitions); differential '
               'truncation / corruption / field-extreme / splice campaign against the real code with every panic or timeout reported as a '
-              'violation keyed by the innermost repo function',
+              'violation keyed by the innermost repo function; allocation: cost semantics of the command IR summing what every statement '
+              'reached materialises on every path (error returns included), a kernel-decided static predicate (every make by a wire count '
+              'directly behind the guard that implies it, every loop consuming input) with a soundness proof giving a bound linear in the '
+              'input with constants computed from the program text; for the hand models allocOf functions following the Go make calls, '
+              "bounded for every input by induction over the decoders' loops, with the decoded value proved no bigger than the allocation; "
+              'allocation audit of the real code (TotalAlloc per case against 256 KiB + 1 KiB per input byte, bisected to the case)',
  'level_text': 'SMB commands: the kernel decides on the unmarshal programs regenerated from /repo that in all 115 command structures every '
                'slice and index expression — the P[4:] of the AndX stanza included, which is accepted only behind the AndX.Unmarshal(P) '
                'that fails below four bytes — is dominated by a length check that implies it (smb_all_commands_guarded; a dropped or '
@@ -53,23 +62,41 @@ CONFIG = {'gen': ['SmbCommands'],
                'len(data) (smb_split_total, *_decode_total, *_decode_bounded). Every other decoding entry point is covered by a proved '
                'theorem about its hand model, for all inputs: ntlm_challenge_parse_total, ntlm_target_info_total, spnego_extract_total, '
                'spnego_neg_token_resp_total, spnego_process_challenge_total; llmnr_decode_message_total, llmnr_decode_name_total, '
-               'llmnr_name_alloc_bound (polynomial allocation through compression pointers); nbns_unmarshal_total, '
-               'nbns_first_level_decode_total, nbt_receive_total; pkcs7_unpad_total/_bounded, gpp_decrypt_bytes_total, '
-               'gpp_decrypt_base64_total, utf16_decode_total, utf16_decode_units; uuid_unmarshal_total, uuid_v1/v2/v8_unmarshal_total, '
-               'uuid_from_bytes_total, uuid_from_string_total, uuid_versions_from_string_total, guid_from_raw_bytes_total, '
-               'guid_parse_total, guid_from_string_total; key_credential_parse_total, key_credential_integrity_total, '
-               'key_credential_new_total, rsa_key_material_parse_total/_bounded, dn_with_binary_parse_total/_bounded, '
-               'key_credential_time_total, key_credential_device_id_total; sid_total; ipv4_parse_total, ipv6_parse_total, '
-               'port_range_parse_total, lmnt_parse_total. Models that are plain total functions need no theorem '
-               '(CustomKeyInformation.FromBytes, ConvertToBinaryIdentifier, KeyCredentialVersion.FromBytes, the LDAP time parsers, '
-               'GetDomainFromDistinguishedName, ValidateDomainName). Covered by the campaign only (no Gen-free model): Message / Header / '
-               "Parameters / Data.Unmarshal (their model is C03's, which imports the regenerated dispatch table; Parameters and Data also "
-               'through parameters_/data_decode_total), DecodeQuestion / DecodeResourceRecord as separate entry points (inside '
+               'llmnr_name_alloc_bound; nbns_unmarshal_total, nbns_first_level_decode_total, nbt_receive_total; '
+               'pkcs7_unpad_total/_bounded, gpp_decrypt_bytes_total, gpp_decrypt_base64_total, utf16_decode_total, utf16_decode_units; '
+               'uuid_unmarshal_total, uuid_v1/v2/v8_unmarshal_total, uuid_from_bytes_total, uuid_from_string_total, '
+               'uuid_versions_from_string_total, guid_from_raw_bytes_total, guid_parse_total, guid_from_string_total; '
+               'key_credential_parse_total, key_credential_integrity_total, key_credential_new_total, '
+               'rsa_key_material_parse_total/_bounded, dn_with_binary_parse_total/_bounded, key_credential_time_total, '
+               'key_credential_device_id_total; sid_total; ipv4_parse_total, ipv6_parse_total, port_range_parse_total, lmnt_parse_total. '
+               'Allocation (38 theorems, summary table in the header of Props/C07.lean; size = one per byte of a string field, 8 per '
+               'integer, summed over lists and map entries; cost functions follow the Go make/append/copy statements and count on every '
+               'path, error returns included): smb_all_commands_alloc_guarded (kernel-decided on the regenerated programs: every make([]T, '
+               'c.G) directly behind its guard, loops consume input), alloc_guarded_sound, std_alloc_codecs, smb_alloc_constants, '
+               'smb_decode_alloc_bound (allocCmd <= 300*len + 154694 for each of the 115 commands and every input), '
+               'smb_decode_value_alloc_bound, smb_string_/parameters_/data_/dialects_alloc_bound; llmnr_decode_message_alloc_bound '
+               '(polynomial: 48 + len + count*(len^2+32), name compression), llmnr_rdata_alloc_bound; nbns_unmarshal_alloc_bound (8*len), '
+               'nbns_rdata_/nbns_first_level_decode_alloc_bound; nbt_receive_alloc_bound (fixed cap 131075: the body is allocated from the '
+               'announced 17-bit length before it is read); key_credential_parse_alloc_bound (2*len allocated, 3*len+160 in all), '
+               'rsa_key_material_parse_/custom_key_information_/dn_with_binary_parse_/key_credential_identifier_/key_credential_fixed_alloc_bound; '
+               'ntlm_target_info_alloc_bound (stored <= 2*len on every path, entries <= len/4), '
+               'ntlm_challenge_parse_/asn1_field_/spnego_neg_token_resp_/spnego_extract_/spnego_process_challenge_alloc_bound (<= 327811); '
+               'pkcs7_unpad_/utf16_decode_ (9 per code unit)/gpp_decrypt_bytes_ (6*len+16)/gpp_decrypt_base64_alloc_bound (7*len+32); '
+               'sid_alloc_bound (10*len), dn_domain_alloc_bound (result <= len, intermediate strings quadratic: (len+1)(len+16), measured '
+               'so on the real code, fixes/C07-dn-domain-quadratic.diff proposed), '
+               'uuid_guid_/ldap_time_/address_parsers_fixed_alloc_bound. No site in the tree allocates by an announced count before '
+               'checking it; a make moved in front of its check is reported by the allocation audit (DNWithBinary.Parse: B:16777216::) or, '
+               "below the audit's allowance, by the broken theorem (TransactionRequest Setup). Models that are plain total functions need "
+               'no theorem (CustomKeyInformation.FromBytes, ConvertToBinaryIdentifier, KeyCredentialVersion.FromBytes, the LDAP time '
+               'parsers, GetDomainFromDistinguishedName, ValidateDomainName). Covered by the campaign only (no Gen-free model): Message / '
+               "Header / Parameters / Data.Unmarshal (their model is C03's, which imports the regenerated dispatch table; Parameters and "
+               'Data also through parameters_/data_decode_total), DecodeQuestion / DecodeResourceRecord as separate entry points (inside '
                'DecodeMessage they are in the model), negative LLMNR offsets, UUIDv2/v8.FromBytes on the real code, KeyStrength / '
                'KeySource / SecretEncryptionType .FromBytes, SecurityFeatures blocks, the 28 information levels, non-ASCII text into the '
                'UUID / GUID text parsers (the C13 model is ASCII). On every run the campaign feeds ~135 000 (quick) / ~790 000 (thorough) '
                'malformed inputs to the real code and compares the outcome class with the model; on the unpatched tree it reproduces every '
                'repaired panic (8717 mismatching cases).',
  'level_note': 'Trusted: Lean kernel; axioms propext, Classical.choice, Quot.sound; extractor and IR semantics, and the hand models, tied '
-               'to the real code by differential testing (bounded); Go runtime behaviour (stack depth, allocation) is observed under a '
-               'per-op timeout and GOMEMLIMIT, not modelled; allocation is proved only where stated.'}
+               'to the real code by differential testing (bounded); Go runtime behaviour (stack depth, per-object overhead, append growth, '
+               'stdlib scratch) is observed under a per-op timeout, the allocation audit and GOMEMLIMIT, not modelled; the allocation '
+               'theorems are about hand-written cost functions beside the models.'}
